@@ -35,9 +35,10 @@ def make_field(rng, kind=None):
     from droplets.emulsions import Emulsion
 
     dim = rng.choice([1, 2, 2, 3])
-    shape = {1: [rng.choice([32, 48, 64])], 2: [rng.choice([16, 24, 32])] * 2, 3: [rng.choice([8, 12])] * 3}[dim]
+    # cell counts with small AND with large prime factors (13, 17, 19, 29, 31, 37: nothing may depend on "FFT-friendly" sizes)
+    shape = {1: [rng.choice([32, 37, 48, 58, 64])], 2: [rng.choice([16, 17, 24, 26, 32])] * 2, 3: [rng.choice([8, 12, 13])] * 3}[dim]
     if rng.random() < 0.3 and dim == 2:
-        shape = [shape[0], shape[0] + 8]
+        shape = [shape[0], shape[0] + rng.choice([8, 3])]
     dx = rng.choice([1.0, 0.5, 0.39])
     grid = CartesianGrid([[0, n * dx] for n in shape], shape, periodic=True)
     kind = kind or rng.choice(["noise", "waves", "droplets", "ring+blob"])
@@ -128,6 +129,14 @@ def tapped_length(ck, field, method, reqs, expect, case, **kw):
     return val
 
 
+# binary images whose droplet count depends on where the periodic boundary cuts them (known finding: components that wind
+# around a periodic axis); 12 x 12, fully periodic
+CORPUS = [
+    ["101111000011", "001111100011", "111111001111", "011110011110", "001111111110", "000101111111",
+     "101001000011", "100110110001", "000000111100", "110001111111", "100001111111", "100111110011"],
+]
+
+
 def run_cases(ck: Check, n: int):
     from pde import CartesianGrid, ScalarField
     from pde.tools.math import SmoothData1D
@@ -135,8 +144,15 @@ def run_cases(ck: Check, n: int):
 
     rng = ck.rng
     reqs, expect = [], []
-    for i in range(n):
-        grid, field, kind = make_field(rng, kind="ring+blob" if i % 4 == 3 else None)
+    for i in range(-len(CORPUS), n):
+        if i < 0:
+            # corpus of past findings, evaluated first on every run
+            rows = CORPUS[i]
+            data0 = np.array([[float(ch) for ch in row] for row in rows])
+            grid = CartesianGrid([[0, s] for s in data0.shape], list(data0.shape), periodic=True)
+            field, kind = ScalarField(grid, data0), "corpus"
+        else:
+            grid, field, kind = make_field(rng, kind="ring+blob" if i % 4 == 3 else None)
         data = field.data
         dim = grid.dim
         case = {"shape": list(grid.shape), "dx": float(grid.discretization[0]), "kind": kind}
@@ -286,7 +302,7 @@ def plane_waves(ck: Check, quick: bool):
     rng = ck.rng
     spacings = [0.01, 0.39, 1.0, 10.0, 100.0] if quick else [0.001, 0.01, 0.1, 0.39, 1.0, 2.0, 10.0, 100.0, 1000.0]
     for dim in (1, 2, 3):
-        for N in ([16, 32] if dim < 3 else [8, 12]) if quick else ([16, 32, 64] if dim < 3 else [8, 12, 16]):
+        for N in ([16, 29, 32] if dim < 3 else [8, 13]) if quick else ([16, 29, 32, 37, 64] if dim < 3 else [8, 12, 13, 16]):
             for m in range(1, N // 4 + 1):
                 if quick and dim > 1 and m not in (1, 2, N // 4):
                     continue
